@@ -168,6 +168,21 @@ def write_bytes(obj, mode):
         return buf.getvalue()
 
 
+def _and_pickle(use):
+    """apply `use` to the re-read object and to a pickle round trip of it (the re-read object must be as independent of the file as the
+    original: lazily loaded blocks included)"""
+    def f(o):
+        r = use(o)
+        try:
+            r2 = use(pickle.loads(pickle.dumps(o)))
+        except Exception as e:
+            raise _ReadFailed("pickling the re-read object failed: %s: %s" % (type(e).__name__, str(e)[:120]))
+        if r2 != r and not (isinstance(r, dict) and _diff(r, r2) is None):
+            raise _ReadFailed("the pickle of the re-read object differs: %s" % (_diff(r, r2) if isinstance(r, dict) else "value"))
+        return r
+    return f
+
+
 def read_back(data, mode, use):
     """open the bytes the way `mode` says and apply `use` to the object while the file is open; a file that was written but cannot
     be read back is a violation, not a harness problem"""
@@ -466,7 +481,7 @@ def _impl(case):
         except Exception as e:
             res["refused"] = type(e).__name__ + ":" + str(e)[:120]
             return res
-        res["back"] = read_back(data, mode, fields)
+        res["back"] = read_back(data, mode, _and_pickle(fields))
         data2 = write_bytes(read_back(data, mode, copy.deepcopy), mode)
         res["rewrite_same"] = _yaml_part(data) == _yaml_part(data2)
         if not res["rewrite_same"]:
@@ -484,7 +499,7 @@ def _impl(case):
         except Exception as e:
             res["refused"] = type(e).__name__ + ":" + str(e)[:120]
             return res
-        res["back"] = read_back(data, mode, lambda o: model_obs(o, case["spec"]))
+        res["back"] = read_back(data, mode, _and_pickle(lambda o: model_obs(o, case["spec"])))
         data2 = write_bytes(read_back(data, mode, copy.deepcopy), mode)
         res["rewrite_same"] = _yaml_part(data) == _yaml_part(data2)
         res["deepcopy"] = model_obs(copy.deepcopy(m), case["spec"])
@@ -504,7 +519,7 @@ def _impl(case):
     except Exception as e:
         res["refused"] = type(e).__name__ + ":" + str(e)[:120]
         return res
-    res["back"] = read_back(data, mode, lambda o: wcs_obs(o, case["wcs"]))
+    res["back"] = read_back(data, mode, _and_pickle(lambda o: wcs_obs(o, case["wcs"])))
     w2 = read_back(data, mode, copy.deepcopy)
     data2 = write_bytes(w2, mode)
     res["rewrite_same"] = _yaml_part(data) == _yaml_part(data2)
@@ -739,7 +754,7 @@ def gen_model(rng):
                  B=[rng.uniform(0.3, 1.2) for _ in range(3)], C=[rng.uniform(0.003, 0.02), rng.uniform(0.01, 0.05), rng.uniform(50, 150)],
                  D=[rng.uniform(-1e-5, 1e-5) for _ in range(3)], E=[rng.uniform(-1e-7, 1e-7), rng.uniform(-1e-9, 1e-9), rng.uniform(0.1, 0.3)])
     if k in ("grating_w", "grating_a"):
-        s["gd"], s["order"] = float(rng.randint(100, 40000)), rng.choice([-1, 1, 2])
+        s["gd"], s["order"] = float(rng.randint(100, 40000)), rng.choice([-1, 1, 2, 1.5, -0.75])   # the order is an ordinary float parameter
     if k in ("dircos", "sphcart"):
         s["to"] = rng.random() < 0.5
         s["wrap"] = rng.choice([180, 360])
